@@ -51,6 +51,13 @@ def run(tier):
         real_field(chk, F, ty)
         simd(chk, F, ty)
     simd_container(chk, F)
+    # the items above are compositions of the operator / compound-assignment / iterator forms of the dual types and, for the vector types,
+    # of the derivative container's operations (a clean-up may switch from `a * b` to `a *= b`, from a loop to `.sum()`, from `1/x` to
+    # `inv()`): every such form is the truncated-algebra operation on every path and for every presence pattern (rule sets of C08 / C07)
+    from . import container, c08
+    container.check_L1(chk, F)
+    for ty in TYPES:
+        c08.check_type(chk, F, ty, thorough=False)
     chk.floor("RealField constants", chk.analysed.get("RealField constants", 0), 60)
     chk.floor("ComplexField forwarding items", chk.analysed.get("ComplexField forwarding items", 0), 4 * 36)
     chk.floor("SimdValue items", chk.analysed.get("SimdValue items", 0), 4 * 6)
@@ -329,9 +336,14 @@ def copysign_rule(chk, F, ty, imp, tag="rf"):
                               paths[0][1], sp.spec_of_real(base))
                 # reference semantics (f64::copysign): the SIGN BIT of sign.re decides, so that -0.0 counts as negative; an ordering
                 # comparison with zero is not the same predicate
-                bk = B.key()
+                from .common import _poly_from_key_cache as cache
+                b_atoms = set(B.atoms_deep())
+
+                def about_sign(k):
+                    return any(isinstance(x, (tuple, str)) and cache.get(x) is not None and (b_atoms & set(cache.get(x).atoms_deep())) for x in k[2:])
+                # (num_traits' is_positive / is_negative of a float are sign-bit tests as well)
                 bad_dec = [d for (k, d, b_, f_) in paths[0][0].trace
-                           if bk in k and not (k[0] == "pred" and k[1] in ("is_sign_positive", "is_sign_negative"))]
+                           if about_sign(k) and not (k[0] == "pred" and k[1] in ("is_sign_positive", "is_sign_negative", "is_positive", "is_negative"))]
                 chk.ob(k2 + "|sign-bit", not bad_dec, "the sign is taken from the sign bit of sign.re (is_sign_positive / is_sign_negative)",
                        body_loc(F, body), found=bad_dec or "sign-bit predicate", required="is_sign_positive(sign.re)", nontrivial=False)
 
